@@ -76,8 +76,10 @@ class WebsocketSession(object):
 
     def close(self):
         """Close the websocket, if it is open."""
+        # (Nothing more than that: _close_socket() forgets the socket
+        # once it is closed. Forgetting it here as well lost a socket
+        # that the event loop had made in the meantime.)
         self._close_socket()
-        self._sock = None
 
     def force_disconnect(self):
         """Force the socket to disconnect."""
